@@ -328,6 +328,8 @@ class ExecCtx:
             self.assume_inv(ls, view, k)
             self.assign(s.target, elem(k))
             self.loop_k = k
+            I.notes['loop_k'] = k
+            I.notes['loop_fp'] = fp
             try:
                 self.exec_block(s.body)
             except ContinueSig:
